@@ -1,7 +1,8 @@
 #!/bin/bash
 # Regression suite of the checker itself (not a registered check): every
 # breaking mutant under mutants/<prop>/ must be detected by that property's
-# check and every benign-* mutant must stay silent. Mutants are applied to
+# check and every benign-* mutant must stay silent; every independently seeded
+# breaking change under seeded/<prop>-k/ must be detected too. Mutants are applied to
 # scratch git worktrees outside /repo and /verif (one per worker), which are
 # removed at the end. Usage: ./selftest.sh [prop…]   (J=workers, default 4)
 cd "$(dirname "$0")"
@@ -11,7 +12,7 @@ mkdir -p /var/tmp/avcheck-logs
 run_one() {
   p=$1
   ./bin/avcheck -list | grep -q "^$p " || { echo "SKIP $p (not registered)"; return 0; }
-  AVCHECK_WT=/var/tmp/avcheck-selftest-$p scripts/mutant.sh "$p" mutants/$p/*.patch > /var/tmp/avcheck-logs/selftest-$p.log 2>&1
+  AVCHECK_WT=/var/tmp/avcheck-selftest-$p scripts/mutant.sh "$p" mutants/$p/*.patch $(ls seeded/$p-*/patch.diff 2>/dev/null) > /var/tmp/avcheck-logs/selftest-$p.log 2>&1
   rc=$?
   git -C /repo worktree remove --force /var/tmp/avcheck-selftest-$p 2>/dev/null
   ok=$(grep -c '^OK' /var/tmp/avcheck-logs/selftest-$p.log); bad=$(grep -c '^FAIL\|^PATCH-FAILED' /var/tmp/avcheck-logs/selftest-$p.log)
